@@ -60,21 +60,20 @@ def table_moved(ctx, R):
         (pd['Rook'], cd['Black'], sq('a8')): R['BQ'], (pd['Rook'], cd['Black'], sq('h8')): R['BK'],
         (pd['King'], cd['White'], sq('e1')): R['WK'] | R['WQ'], (pd['King'], cd['Black'], sq('e8')): R['BK'] | R['BQ'],
     }
+    # table by partial evaluation on the whole finite domain (6 pieces x 2 colours x 64 origin squares), whatever the spelling
     found = {}
-    a_piece, a_col, a_sq = ('discr', ('p', 1)), ('discr', ('p', 2)), ('fld', ('p', 3), '0')
-    for conds, val, o in rows(outs):
-        if not is_const(val):
-            ctx.ob(rule, name, 'row value not constant', False, found=show(val), expected='constant mask')
-            continue
-        if val[1] == 0:
-            continue
-        key = (conds.get(a_piece), conds.get(a_col), conds.get(a_sq))
-        if not all(isinstance(x, int) for x in key):
-            ctx.ob(rule, name, 'row(value=%d) does not pin piece, colour and square' % val[1], False,
-                   found=[show_cond(c) for c in o.conds], expected='piece == P, colour == C, from == S',
-                   why='a rights-loss row that ignores piece, colour or square removes rights for moves that must keep them')
-            continue
-        found[key] = val[1]
+    bad_rows = []
+    for p_ in PIECES:
+        for c_ in ('White', 'Black'):
+            for i_ in range(64):
+                outs1 = [o for o in Engine(facts, unroll=True).run(name, args=[piece(p_), COLORS[c_], bb(1 << i_)]) if o.kind != 'abort']
+                if len(outs1) != 1 or outs1[0].kind != 'return' or not is_const(outs1[0].value):
+                    bad_rows.append((p_, c_, sq_name(1 << i_)))
+                    continue
+                v = outs1[0].value[1]
+                if v != 0:
+                    found[(pd[p_], cd[c_], 1 << i_)] = v
+    ctx.ob(rule, name, 'row value not constant', not bad_rows, found=bad_rows[:3], expected='a constant mask for every (piece, colour, from)', nontrivial=False)
     for k in sorted(set(oracle) | set(found)):
         inst = 'row(piece=%s,colour=%s,from=%s)' % (k[0], k[1], sq_name(k[2]) or k[2])
         ctx.ob(rule, name, inst, oracle.get(k) == found.get(k), found=found.get(k, 0), expected=oracle.get(k, 0),
@@ -93,21 +92,24 @@ def table_taken(ctx, R):
     cd = {k: discr_of(facts, 'chess::board::color::Color', k) for k in cd}
     oracle = {(pd['Rook'], cd['White'], sq('a1')): R['WQ'], (pd['Rook'], cd['White'], sq('h1')): R['WK'],
               (pd['Rook'], cd['Black'], sq('a8')): R['BQ'], (pd['Rook'], cd['Black'], sq('h8')): R['BK']}
+    # the helper is a pure function of (captured piece, its colour, destination square): its table is obtained by partial evaluation on
+    # every element of that finite domain (13 x 64 inputs), whatever way it is written (match, lookup table + find, nested ifs)
     found = {}
-    payload = ('fld', ('p', 1), 'Some.0')
-    a_piece, a_col, a_sq = ('discr', ('fld', payload, '0')), ('discr', ('fld', payload, '1')), ('fld', ('p', 2), '0')
-    for conds, val, o in rows(outs):
-        if not is_const(val):
-            ctx.ob(rule, name, 'row value not constant', False, found=show(val), expected='constant mask')
-            continue
-        if val[1] == 0:
-            continue
-        key = (conds.get(a_piece), conds.get(a_col), conds.get(a_sq))
-        if not all(isinstance(x, int) for x in key) or conds.get(('discr', ('p', 1))) != 1:
-            ctx.ob(rule, name, 'row(value=%d) does not pin captured piece, colour and square' % val[1], False,
-                   found=[show_cond(c) for c in o.conds], expected='captured == Some((Rook, C)), to == S')
-            continue
-        found[key] = val[1]
+    opt_adt = 'std::option::Option'
+    cases = [(None, None)] + [(p_, c_) for p_ in PIECES for c_ in ('White', 'Black')]
+    bad_rows = []
+    for p_, c_ in cases:
+        cap = ('agg', 'adt', opt_adt, 'None', ()) if p_ is None else \
+            ('agg', 'adt', opt_adt, 'Some', (('0', ('agg', 'tuple', None, None, (('0', piece(p_)), ('1', COLORS[c_])))),))
+        for i_ in range(64):
+            outs1 = [o for o in Engine(facts, unroll=True).run(name, args=[cap, bb(1 << i_)]) if o.kind != 'abort']
+            if len(outs1) != 1 or outs1[0].kind != 'return' or not is_const(outs1[0].value):
+                bad_rows.append((p_, c_, sq_name(1 << i_), [show(o.value) if o.value else o.kind for o in outs1][:2]))
+                continue
+            v = outs1[0].value[1]
+            if v != 0:
+                found[(pd[p_], cd[c_], 1 << i_)] = v
+    ctx.ob(rule, name, 'row value not constant', not bad_rows, found=bad_rows[:3], expected='a constant mask for every (captured, to)', nontrivial=False)
     for k in sorted(set(oracle) | set(found)):
         inst = 'row(captured piece=%s,colour=%s,to=%s)' % (k[0], k[1], sq_name(k[2]) or k[2])
         ctx.ob(rule, name, inst, oracle.get(k) == found.get(k), found=found.get(k, 0), expected=oracle.get(k, 0),
